@@ -7,23 +7,24 @@ Model: `Model/Converter.lean` + the output abstraction `views` of `Model/ConvFlu
 
 Main theorem (`C17_refines`): with default options (`reuse = false`), for a history that respects the FORK / EXEC
 clauses of the kernel's record grammar (`Life.grammarOk`, the executable form of `LifeL.forkOk`: a FORK never
-names a bound child, `tid ≠ pid`, `tid ≠ ptid`; EXEC on main threads only) and in which no thread EXIT arrives
-for a pid without live process (`Life.orphanFree`),
+names a bound child, `tid ≠ pid`, `tid ≠ ptid`; EXEC on main threads only),
 
     (views (run cfg rs)).map C17_rowOf = Life.rows (Life.run cfg.ref rs)
 
 as *lists* — both sides create entries in the same order. Ids reused after EXIT with or without FORK, a
-main-thread EXIT before a sibling's EXIT, records that mention an exited id are all inside the statement.
+main-thread EXIT before a sibling's EXIT (the kernel's order for `exit_group` with a zombie leader), the EXIT of
+a thread whose process is not known, records that mention an exited id are all inside the statement.
 The proof is a simulation (`Lemmas/LifeSim.lean`:
 `Sim s l` = the entry tables are the incarnation tables, the suffix counters count incarnations, and the handles
 stored in the process table point exactly at the alive incarnations; `Lemmas/LifeStep.lean`: every record
 handler preserves it, the grammar makes the back-dating branches of `recycle_or_get_new{,_thread}` unreachable).
 
-`Life.orphanFree` is an excluded point where the code and the specification differ
-(`C17_phantom_counterexample`, `decide`): the EXIT of a non-main thread after its main thread's EXIT makes
-`handle_exit` create a process entry `<pid>` (start 0, never ended) through `get_by_pid`; the eager reading
-creates nothing for an EXIT record. The judge applies the specification there (generator family
-`orphan-exit`, candidate finding C17-phantom-process-on-thread-exit).
+Repaired defect (finding C17-phantom-process-on-thread-exit, fix 8ede2c85): `handle_exit` used the *creating*
+`Processes::get_by_pid` for non-main threads, so the EXIT of a thread after its main thread's EXIT (or of a pid
+never seen) made a process entry `<pid>`, start 0, never ended. The pre-fix handler is kept as
+`Conv.stepLegacy`; `C17_legacy_counterexample_phantom_process` (`decide`) shows the refinement is false for it on a
+history inside the grammar. With the repair (`get_existing_by_pid`) the hypothesis `Life.orphanFree` that excluded
+exactly this input is gone.
 
 The property text itself is restated on the specification side, for every state, by
 `C17_spec_comm_sets_name`, `C17_spec_fork_inherits_name`, `C17_spec_fork_inherits_process_name`,
@@ -135,35 +136,41 @@ def C17_rowOf (v : View) : Life.Row :=
 /-- default options + kernel record grammar: the converter's thread entries, with their names and
     lifetimes, are exactly the incarnations of the eager reading of the history, in creation order -/
 theorem C17_refines (cfg : Config) (rs : List Rec) (hr : cfg.reuse = false)
-    (hg : Life.grammarOk cfg.ref rs = true) (ho : Life.orphanFree cfg.ref rs = true) :
+    (hg : Life.grammarOk cfg.ref rs = true) :
     (views (run cfg rs)).map C17_rowOf = Life.rows (Life.run cfg.ref rs) :=
-  LifeL.views_rows (LifeL.sim_run cfg rs hr hg ho)
+  LifeL.views_rows (LifeL.sim_run cfg rs hr hg)
 
 /-- The kernel's order for `exit_group` with a zombie leader: the main thread's EXIT precedes a sibling's. -/
 def C17_exPhantom : List Rec :=
   [.comm 100 100 "app" false 1000, .fork 100 101 100 100 1100, .sample 100 101 1200 false 1 0x10 [],
    .exit 100 100 2000, .exit 100 101 2000]
 
-/-- The excluded point of `C17_refines` (`Life.orphanFree` false, the rest of the grammar respected): the
-converter creates a third entry — process `100.1`, named `<100>`, start 0, never ended — that no record
-announces; the eager reading has the two entries of the history, both ended at the main thread's EXIT. The
-converter's rows are those of `Life.runLegacy` (EXIT creates the process on demand). -/
-theorem C17_phantom_counterexample :
-    Life.grammarOk 1000 C17_exPhantom = true ∧ Life.orphanFree 1000 C17_exPhantom = false ∧
+/-- The defect repaired by 8ede2c85, on the pre-fix handler `Conv.stepLegacy` (`handle_exit` → creating
+`get_by_pid`): for a history inside the grammar the legacy converter has a third entry — process `100.1`, named
+`<100>`, start 0, never ended — that no record announces, so the refinement `C17_refines` is false for it; its rows
+are those of the eager reading `Life.runLegacy` in which an orphan EXIT creates the process. The repaired
+converter has exactly the two entries of the history, both ended at the main thread's EXIT (`C17_refines`
+applies: the same history, checked here by evaluation too). -/
+theorem C17_legacy_counterexample_phantom_process :
+    Life.grammarOk 1000 C17_exPhantom = true ∧
     (Life.rows (Life.run 1000 C17_exPhantom)).map (fun r => (r.pid, r.tid, r.name, r.start, r.end_)) =
       [("100", "100", "app", 0, some 1000), ("100", "101", "app", 100, some 1000)] ∧
-    (views (run { ref := 1000 } C17_exPhantom)).map (fun v => (v.pid, v.tid, v.name, v.start, v.end_)) =
+    (views (runLegacy { ref := 1000 } C17_exPhantom)).map (fun v => (v.pid, v.tid, v.name, v.start, v.end_)) =
       [("100", "100", "app", 0, some 1000), ("100", "101", "app", 100, some 1000),
        ("100.1", "100.1", "<100>", 0, none)] ∧
-    (views (run { ref := 1000 } C17_exPhantom)).map C17_rowOf = Life.rows (Life.runLegacy 1000 C17_exPhantom) := by
-  refine ⟨by decide, by decide, by decide, by decide, by decide⟩
+    (views (runLegacy { ref := 1000 } C17_exPhantom)).map C17_rowOf ≠ Life.rows (Life.run 1000 C17_exPhantom) ∧
+    (views (runLegacy { ref := 1000 } C17_exPhantom)).map C17_rowOf = Life.rows (Life.runLegacy 1000 C17_exPhantom) ∧
+    (views (run { ref := 1000 } C17_exPhantom)).map C17_rowOf = Life.rows (Life.run 1000 C17_exPhantom) ∧
+    -- the minimal input: a lone EXIT of a thread of a never-seen pid
+    (views (runLegacy {} [.exit 100 101 2000])).map (fun v => (v.pid, v.tid, v.name)) = [("100", "100", "<100>")] ∧
+    views (run {} [.exit 100 101 2000]) = [] := by
+  refine ⟨by decide, by decide, by decide, by decide, by decide, by decide, by decide, by decide⟩
 
-/-- a main-thread EXIT before a sibling's EXIT is inside the statement as long as the sibling's EXIT is not
-delivered afterwards; so is an id reused after its EXIT without a FORK (the sample re-creates pid 100) -/
-example : Life.grammarOk 0 [.comm 100 100 "a" false 10, .fork 100 101 100 100 11, .exit 100 100 12,
-      .sample 100 101 13 false 1 0x10 []] = true ∧
-    Life.orphanFree 0 [.comm 100 100 "a" false 10, .fork 100 101 100 100 11, .exit 100 100 12,
-      .sample 100 101 13 false 1 0x10 []] = true := by decide
+/-- the hypotheses of `C17_refines` hold for the orphan-EXIT history, for a sibling's records after the main
+thread's EXIT, and for an id reused after its EXIT without a FORK (the sample re-creates pid 100) -/
+example : Life.grammarOk 1000 C17_exPhantom = true ∧
+    Life.grammarOk 0 [.comm 100 100 "a" false 10, .fork 100 101 100 100 11, .exit 100 100 12,
+      .sample 100 101 13 false 1 0x10 [], .exit 100 101 14, .exit 100 100 15, .exit 100 101 16] = true := by decide
 
 /-- regression: an executable MMAP2 for an unbound pid before the first sample creates the process entry on
 both sides (the eager specification originally created nothing here) -/
@@ -289,11 +296,12 @@ theorem C17_spec_exit_sets_end (s : Life.S) (pid tid t pi : Nat) (hp : Life.curP
   have he : Life.ensureProc s pid = (s, pi) := by unfold Life.ensureProc; rw [hp]
   refine ⟨?_, ?_⟩
   · intro i hne ht
-    rw [lstep_exit _ _ _ _ (fun _ => by rw [hp]; simp), if_neg hne, he]
+    rw [lstep_exit, if_neg hne, hp]
+    simp only [he]
     simp only [ht]
     exact ⟨rfl, rfl⟩
   · intro heq
-    rw [lstep_exit _ _ _ _ (fun _ => by rw [hp]; simp), if_pos heq, hp]
+    rw [lstep_exit, if_pos heq, hp]
     exact ⟨rfl, rfl⟩
 
 /-- EXEC on a main thread splits the process: the current process incarnation (and its threads) end at the
@@ -366,10 +374,9 @@ theorem C17_spec_exec_splits (s : Life.S) (pid : Nat) (name : String) (t pi : Na
 
 /-- in every state reached by a grammatical history, the alive process incarnation of a pid is unique (it is
 the one `curProc` finds) — the hypothesis of the last clause of `C17_spec_exec_splits` -/
-theorem C17_spec_alive_unique (ref : Nat) (rs : List Rec) (hg : Life.grammarOk ref rs = true)
-    (ho : Life.orphanFree ref rs = true) (j : Nat)
+theorem C17_spec_alive_unique (ref : Nat) (rs : List Rec) (hg : Life.grammarOk ref rs = true) (j : Nat)
     (y : Life.PInc) (hy : (Life.run ref rs).ps[j]? = some y) (hal : y.alive = true) :
     Life.curProc (Life.run ref rs) y.pid = some j := by
-  have h := sim_run { ref := ref } rs rfl hg ho
+  have h := sim_run { ref := ref } rs rfl hg
   obtain ⟨p, hb, hh⟩ := h.live.backP j y hy hal
   rw [h.live.curProc_bound hb, hh]
